@@ -96,6 +96,11 @@ static void errors_case(Case& c) {
             e = err_kind([&] { cfg.num_lethal(); }); out << "err.accessor num_lethal " << created << " " << enabled << " => " << (e.empty() ? "ok" : e) << "\n";
             e = err_kind([&] { cfg.rate_num_steps(); }); out << "err.accessor rate_num " << created << " " << enabled << " => " << (e.empty() ? "ok" : e) << "\n";
             e = err_kind([&] { cfg.quarantine_num_steps(); }); out << "err.accessor quarantine_num " << created << " " << enabled << " => " << (e.empty() ? "ok" : e) << "\n";
+            // weather table: needs the schedules AND a weather series (weather_size > 0 plays the role of "enabled")
+            cfg.weather_size = enabled ? 5 : 0;
+            if (created) cfg.create_schedules();
+            e = err_kind([&] { cfg.weather_table(); }); out << "err.accessor weather_table " << created << " " << enabled << " => " << (e.empty() ? "ok" : e) << "\n";
+            e = err_kind([&] { cfg.simulation_step_to_weather_step(0); }); out << "err.accessor weather_step " << created << " " << enabled << " => " << (e.empty() ? "ok" : e) << "\n";
             if (enabled) {
                 e = err_kind([&] { cfg.scheduler(); }); out << "err.accessor scheduler " << created << " 1 => " << (e.empty() ? "ok" : e) << "\n";
                 e = err_kind([&] { cfg.spread_schedule(); }); out << "err.accessor spread " << created << " 1 => " << (e.empty() ? "ok" : e) << "\n";
